@@ -8,7 +8,9 @@ PATCH=$(realpath "$1"); shift
 CLONE=${SEED_CLONE:-/tmp/repo-seed}
 SNAP=${SEED_SNAP:-/tmp/verif-snap2}
 if [ ! -d "$CLONE/.git" ]; then rm -rf "$CLONE"; git clone -q /repo "$CLONE"; fi
-git -C "$CLONE" fetch -q origin 2>/dev/null; git -C "$CLONE" checkout -q --detach "$(git -C /repo rev-parse HEAD)" 2>/dev/null || { git -C "$CLONE" fetch -q /repo HEAD && git -C "$CLONE" checkout -q --detach FETCH_HEAD; }
+# SEED_BASE=<commit>: evaluate a seed on the tree it was written for (when a later fix rewrote the same lines)
+BASE=${SEED_BASE:-$(git -C /repo rev-parse HEAD)}
+git -C "$CLONE" reset -q --hard 2>/dev/null; git -C "$CLONE" fetch -q origin 2>/dev/null; git -C "$CLONE" checkout -q --detach "$BASE" 2>/dev/null || { git -C "$CLONE" fetch -q /repo HEAD && git -C "$CLONE" checkout -q --detach FETCH_HEAD; }
 git -C "$CLONE" reset -q --hard ; git -C "$CLONE" clean -fdq
 if [ ! -d "$SNAP" ] || [ -n "${SEED_RESNAP:-}" ]; then
   mkdir -p "$SNAP"; rsync -a --delete --exclude=/build --exclude=/.git --exclude=/replays --exclude=/evidence /verif/ "$SNAP/"
